@@ -71,7 +71,7 @@ func c03Generate(seed uint64, tier string, index int) json.RawMessage {
 	r := verifsim.NewRNG(seed).Fork("plan")
 	p := c03Plan{}
 	p.Cfg = schedCfg(r, 20000)
-	allow := r.Chance(300)
+	allow := r.Chance(500)
 	p.Nodes = []nodeOpts{
 		{RevCacheSize: -1, FeedWorkers: r.Range(1, 2), NumVB: 4, AllowConflicts: allow, SyncFn: c03SyncFn},
 		{RevCacheSize: -1, FeedWorkers: r.Range(1, 2), NumVB: 4, AllowConflicts: allow, SyncFn: c03SyncFn},
@@ -85,7 +85,7 @@ func c03Generate(seed uint64, tier string, index int) json.RawMessage {
 			var prog []c03Op
 			for i := 0; i < r.Range(1, 5); i++ {
 				op := c03Op{Node: r.Intn(2)}
-				switch x := r.Intn(20); {
+				switch x := r.Intn(24); {
 				case x < 5:
 					op.Kind, op.Name = "user", c03UserNames[r.Intn(3)]
 					op.Chans, op.Roles = subset(r, c03Chans, 350), subset(r, c03RoleNames, 350)
@@ -96,22 +96,61 @@ func c03Generate(seed uint64, tier string, index int) json.RawMessage {
 					op.Chans = subset(r, c03Chans, 400)
 				case x < 10:
 					op.Kind, op.Name = "delrole", c03RoleNames[r.Intn(2)]
-				case x < 17:
-					op.Kind, op.Doc = "doc", r.Intn(4)
+				case x < 16:
+					op.Kind, op.Doc = "doc", r.Intn(3)
 					op.GU, op.Chans = subset(r, grantees, 350), subset(r, c03Chans, 450)
 					op.RU, op.Roles = subset(r, c03UserNames, 300), subset(r, roleRefs, 450)
-				case x < 19:
-					op.Kind, op.Doc = "deldoc", r.Intn(4)
+				case x < 18:
+					op.Kind, op.Doc = "deldoc", r.Intn(3)
+				case x < 21:
+					op.Kind, op.Doc = "branch", r.Intn(3)
+					op.GU, op.Chans = subset(r, grantees, 350), subset(r, c03Chans, 450)
+					op.RU, op.Roles = subset(r, c03UserNames, 300), subset(r, roleRefs, 450)
 				default:
-					op.Kind, op.Doc = "branch", r.Intn(4)
-					op.GU, op.Chans = subset(r, grantees, 350), subset(r, c03Chans, 450)
-					op.RU, op.Roles = subset(r, c03UserNames, 300), subset(r, roleRefs, 450)
+					// the user's next request: load the principal (rebuilds it when invalidated)
+					op.Kind, op.Name = "load", c03UserNames[r.Intn(3)]
 				}
 				prog = append(prog, op)
 			}
 			tasks = append(tasks, prog)
 		}
 		p.Phases = append(p.Phases, tasks)
+	}
+	switch r.Intn(10) {
+	case 0, 1:
+		// hot principal: loads (recomputation of an invalidated principal) race with admin edits of
+		// the same principal, some of which remove every admin channel / role, and with granting writes
+		u := c03UserNames[r.Intn(3)]
+		p.Phases = [][][]c03Op{
+			{{{Kind: "role", Name: "r1", Chans: subset(r, c03Chans, 500), Node: r.Intn(2)},
+				{Kind: "user", Name: u, Chans: []string{"X", "Y"}, Roles: []string{"r1"}, Node: r.Intn(2)}}},
+			{
+				{{Kind: "load", Name: u, Node: r.Intn(2)}, {Kind: "load", Name: u, Node: r.Intn(2)}},
+				{{Kind: "user", Name: u, Chans: subset(r, c03Chans, 250), Roles: subset(r, c03RoleNames, 250), Node: r.Intn(2)}},
+				{{Kind: "doc", Doc: 0, GU: []string{u}, Chans: subset(r, c03Chans, 600), RU: []string{u}, Roles: []string{"role:r2"}, Node: r.Intn(2)}},
+			},
+			{
+				{{Kind: "load", Name: u, Node: r.Intn(2)}},
+				{{Kind: "user", Name: u, Chans: subset(r, c03Chans, 250), Roles: subset(r, c03RoleNames, 250), Node: r.Intn(2)}},
+			},
+		}
+	case 2, 3:
+		// winner change: a conflicted granting document whose winning branch is tombstoned, so an
+		// older leaf becomes the current revision again
+		for i := range p.Nodes {
+			p.Nodes[i].AllowConflicts = true
+		}
+		g := func() c03Op {
+			return c03Op{GU: subset(r, grantees, 500), Chans: subset(r, c03Chans, 600), RU: subset(r, c03UserNames, 500), Roles: subset(r, roleRefs, 600), Node: r.Intn(2)}
+		}
+		d1, d2, d3 := g(), g(), g()
+		d1.Kind, d2.Kind, d3.Kind = "doc", "doc", "branch"
+		p.Phases = [][][]c03Op{
+			{{{Kind: "user", Name: "u1", Chans: subset(r, c03Chans, 300), Node: 0}, {Kind: "user", Name: "u2", Node: 1},
+				{Kind: "role", Name: "r1", Chans: subset(r, c03Chans, 300), Node: 0}, {Kind: "role", Name: "r2", Node: 1}, d1, d2, d3}},
+			{{{Kind: "deldoc", Doc: 0, Node: r.Intn(2)}}},
+			{{{Kind: "deldoc", Doc: 0, Node: r.Intn(2)}}},
+		}
 	}
 	p.Restart = r.Chance(250)
 	p.Faulty = index%2 == 1
@@ -214,14 +253,23 @@ func c03Run(env *verifsim.Env, raw json.RawMessage) *verifsim.Violation {
 			replaced, _, err := n.dbc.UpdatePrincipal(ctx, &auth.PrincipalConfig{Name: &name, Password: &pw,
 				ExplicitChannels: base.SetFromArray(op.Chans), ExplicitRoleNames: base.SetFromArray(op.Roles)}, true, true)
 			rec.End(map[string]any{"created": !replaced && err == nil, "name": name}, err)
+		case "load":
+			rec := t.Begin("load", op.Name)
+			u, err := n.dbc.Authenticator(ctx).GetUser(op.Name)
+			if err == nil && u != nil {
+				_, err = u.InheritedCollectionChannels(base.DefaultScope, base.DefaultCollection)
+			}
+			rec.End(nil, err)
 		case "deluser":
 			rec := t.Begin("deluser", op.Name)
 			a := n.dbc.Authenticator(ctx)
 			u, err := a.GetUser(op.Name)
+			deleted := false
 			if err == nil && u != nil {
 				err = a.DeleteUser(u)
+				deleted = err == nil
 			}
-			rec.End(nil, err)
+			rec.End(map[string]any{"deleted": deleted, "name": op.Name}, err)
 		case "role":
 			rec := t.Begin("role", op)
 			name := op.Name
@@ -230,7 +278,7 @@ func c03Run(env *verifsim.Env, raw json.RawMessage) *verifsim.Violation {
 		case "delrole":
 			rec := t.Begin("delrole", op.Name)
 			err := n.dbc.DeleteRole(ctx, op.Name, false)
-			rec.End(nil, err)
+			rec.End(map[string]any{"deleted": err == nil, "name": op.Name}, err)
 		case "doc", "deldoc":
 			rec := t.Begin(op.Kind, op)
 			id := docID(op.Doc)
@@ -326,6 +374,22 @@ func c03Run(env *verifsim.Env, raw json.RawMessage) *verifsim.Violation {
 						return
 					}
 					if role != nil && !role.IsDeleted() {
+						if edits, _, anyOps := c03AdminCandidates(s, "role", "delrole", rn); anyOps {
+							expl := map[string]bool{}
+							for c := range role.CollectionExplicitChannels(base.DefaultScope, base.DefaultCollection) {
+								expl[c] = true
+							}
+							okAdmin := false
+							for _, e := range edits {
+								if sameSet(e.Chans, expl) {
+									okAdmin = true
+								}
+							}
+							if !okAdmin {
+								vio = verifsim.Vf("C03", "admin-grants", "%s after %s: role %s stores admin channels %v, which is not what any admin edit that could be the last one assigned (candidates %+v)", n.name, label, rn, keysOf(expl), edits)
+								return
+							}
+						}
 						roleExists[rn] = true
 						roleAdmin[rn] = map[string]bool{}
 						for c := range role.CollectionExplicitChannels(base.DefaultScope, base.DefaultCollection) {
@@ -346,7 +410,7 @@ func c03Run(env *verifsim.Env, raw json.RawMessage) *verifsim.Violation {
 						if d := diffSets(want, got); d != "" {
 							vio = verifsim.Vf("C03", "role-channels", "%s (node %d) after %s: role %s effective channels differ from admin grants + current document grants: %s", n.name, ni, label, rn, d)
 							if c03CreationRace(s, rn) {
-								vio.Key = "principal-created-while-granting-document-written"
+								vio.Key = "invalidation-lost-to-concurrent-principal-load"
 							}
 							return
 						}
@@ -358,8 +422,33 @@ func c03Run(env *verifsim.Env, raw json.RawMessage) *verifsim.Violation {
 						vio = verifsim.Vf("C03", "load-failed", "%s: loading user %s failed: %v", n.name, un, err)
 						return
 					}
+					edits, delCand, anyOps := c03AdminCandidates(s, "user", "deluser", un)
 					if u == nil {
+						if anyOps && !delCand {
+							vio = verifsim.Vf("C03", "admin-lost", "%s after %s: user %s does not exist although its last acknowledged admin operation was not a delete", n.name, label, un)
+							return
+						}
 						continue
+					}
+					if anyOps {
+						expl := map[string]bool{}
+						for c := range u.CollectionExplicitChannels(base.DefaultScope, base.DefaultCollection) {
+							expl[c] = true
+						}
+						explRoles := map[string]bool{}
+						for rn := range u.ExplicitRoles() {
+							explRoles[rn] = true
+						}
+						okAdmin := false
+						for _, e := range edits {
+							if sameSet(e.Chans, expl) && sameSet(e.Roles, explRoles) {
+								okAdmin = true
+							}
+						}
+						if !okAdmin {
+							vio = verifsim.Vf("C03", "admin-grants", "%s after %s: user %s stores admin channels %v and admin roles %v, which is not what any admin edit that could be the last one assigned (candidates %+v)", n.name, label, un, keysOf(expl), keysOf(explRoles), edits)
+							return
+						}
 					}
 					want := map[string]bool{"!": true}
 					for c := range u.CollectionExplicitChannels(base.DefaultScope, base.DefaultCollection) {
@@ -400,7 +489,7 @@ func c03Run(env *verifsim.Env, raw json.RawMessage) *verifsim.Violation {
 					if d := diffSets(want, got); d != "" {
 						vio = verifsim.Vf("C03", "user-channels", "%s after %s: user %s effective channels differ from admin grants + current document grants + roles %v: %s", n.name, label, un, keysOf(wantRoles), d)
 						if c03CreationRace(s, append([]string{un}, keysOf(held)...)...) {
-							vio.Key = "principal-created-while-granting-document-written"
+							vio.Key = "invalidation-lost-to-concurrent-principal-load"
 						}
 						return
 					}
@@ -416,7 +505,7 @@ func c03Run(env *verifsim.Env, raw json.RawMessage) *verifsim.Violation {
 					if d := diffSets(wantRoles, gotRoles); d != "" {
 						vio = verifsim.Vf("C03", "user-roles", "%s after %s: user %s roles differ from admin assignment + current document grants (existing roles only): %s", n.name, label, un, d)
 						if c03CreationRace(s, append([]string{un}, keysOf(held)...)...) {
-							vio.Key = "principal-created-while-granting-document-written"
+							vio.Key = "invalidation-lost-to-concurrent-principal-load"
 						}
 						return
 					}
@@ -463,25 +552,37 @@ func c03Run(env *verifsim.Env, raw json.RawMessage) *verifsim.Violation {
 	return nil
 }
 
-// c03CreationRace reports whether principal name was created by an operation that overlapped a
-// document write (the recorded finding: a principal computed and saved while a granting document
-// is written or removed concurrently misses that write's invalidation, because the invalidation
-// finds no principal document yet).
+// c03CreationRace reports whether an operation that loads or saves one of the named principals
+// overlapped a document write.  That is the shape of the recorded finding: a principal whose channel
+// list is already marked invalid (it has just been created or edited, or an earlier write invalidated
+// it) is being recomputed and saved by a load while a document that changes its grants is written;
+// the write's invalidation is an insert of a marker that already exists (or finds no principal
+// document yet) and is dropped, and the in-flight recomputation then clears the marker.
 func c03CreationRace(s *verifsim.Sim, names ...string) bool {
 	hist := s.History()
 	for _, c := range hist {
-		res, _ := c.Result.(map[string]any)
-		if res == nil || res["created"] != true {
-			continue
-		}
 		match := false
-		for _, n := range names {
-			if res["name"] == n {
-				match = true
+		switch c.Op {
+		case "user", "role", "deluser", "delrole":
+			res, _ := c.Result.(map[string]any)
+			for _, n := range names {
+				if res != nil && res["name"] == n {
+					match = true
+				}
+			}
+		case "load":
+			for _, n := range names {
+				if c.Args == n {
+					match = true
+				}
 			}
 		}
 		if !match {
 			continue
+		}
+		cend := c.Return
+		if cend == 0 {
+			cend = 1 << 62
 		}
 		for _, d := range hist {
 			if d.Op != "doc" && d.Op != "deldoc" && d.Op != "branch" {
@@ -491,12 +592,61 @@ func c03CreationRace(s *verifsim.Sim, names ...string) bool {
 			if end == 0 {
 				end = 1 << 62
 			}
-			if d.Call < c.Return && c.Call < end {
+			if d.Call < cend && c.Call < end {
 				return true
 			}
 		}
 	}
 	return false
+}
+
+// c03AdminCandidates returns the acknowledged admin operations on a principal that can be the last one
+// in some linearization consistent with real time (no other acknowledged operation on that principal
+// started after they returned).  The stored admin grants must be those of one of them.
+func c03AdminCandidates(s *verifsim.Sim, kind, delKind, name string) (edits []c03Op, deleted bool, anyOps bool) {
+	var ops []*verifsim.OpRecord
+	for _, r := range s.History() {
+		if r.Return == 0 || r.Err != "" {
+			continue
+		}
+		res, _ := r.Result.(map[string]any)
+		if res == nil || res["name"] != name {
+			continue
+		}
+		if r.Op == kind || (r.Op == delKind && res["deleted"] == true) {
+			ops = append(ops, r)
+		}
+	}
+	for _, a := range ops {
+		last := true
+		for _, b := range ops {
+			if b != a && b.Call > a.Return {
+				last = false
+			}
+		}
+		if !last {
+			continue
+		}
+		anyOps = true
+		if a.Op == delKind {
+			deleted = true
+		} else if op, ok := a.Args.(c03Op); ok {
+			edits = append(edits, op)
+		}
+	}
+	return edits, deleted, anyOps
+}
+
+func sameSet(xs []string, m map[string]bool) bool {
+	if len(xs) != len(m) {
+		return false
+	}
+	for _, x := range xs {
+		if !m[x] {
+			return false
+		}
+	}
+	return true
 }
 
 func diffSets(want, got map[string]bool) string {
